@@ -33,6 +33,8 @@ type scenario struct {
 	Run     func(sb *fsx.Sandbox) error  // the installer call
 	BadAt   int                          // > 0: an invalid input sits at this position of the batch: the call must fail cleanly
 	Heavy   bool                         // thorough tier only
+	Chdir   string                       // run with this sandbox directory as the current directory
+	Slow    bool                         // each run takes seconds: only a few seeded fault points
 	Durable bool                         // font representation: judged by NeverTorn / DurableOnOk (C07)
 }
 
@@ -164,6 +166,34 @@ func scenarios() []scenario {
 				_, err := api.ImportCertificates(files)
 				return err
 			}})
+	}
+	// cheat sheets (written to the current directory): a batch, and a batch naming the same font twice
+	for _, c := range []struct {
+		names []string
+		pre   bool
+		bad   int
+	}{{[]string{"Roboto-Regular"}, true, 0}, {[]string{"Roboto-Regular", "Roboto-Regular"}, true, 2}, {[]string{"Roboto-Regular", "Roboto-Regular"}, false, 2}} {
+		c := c
+		run := func(sb *fsx.Sandbox) error { return api.CreateCheatSheetsUserFonts(c.names) }
+		ss = append(ss, scenario{Name: fmt.Sprintf("api.CreateCheatSheetsUserFonts/names=%d/pre=%v/bad=%d", len(c.names), c.pre, c.bad), Dir: "sheets", BadAt: c.bad, Slow: true, Chdir: "sheets",
+			Setup: func(sb *fsx.Sandbox) {
+				fontsDir(sb)
+				sb.Mkdir("sheets")
+				preinstall(sb, 0)
+				if err := font.ReloadUserFonts(); err != nil {
+					panic(err)
+				}
+				if c.pre {
+					wd, _ := os.Getwd()
+					os.Chdir(sb.P("sheets"))
+					err := api.CreateCheatSheetsUserFonts([]string{"Roboto-Regular"})
+					os.Chdir(wd)
+					if err != nil {
+						panic(err)
+					}
+				}
+			},
+			Run: run})
 	}
 	return ss
 }
@@ -330,12 +360,20 @@ func main() {
 		if sc.Heavy && tier != "thorough" {
 			continue
 		}
+		if sc.Slow && mode != "c06" {
+			continue
+		}
 		if only != "" && !strings.Contains(sc.Name, only) {
 			continue
 		}
 		exec := func(cfg fsx.RunCfg) (*fsx.Sandbox, fsx.Result) {
 			sb := fsx.New()
 			sc.Setup(sb)
+			if sc.Chdir != "" {
+				wd, _ := os.Getwd()
+				os.Chdir(sb.P(sc.Chdir))
+				defer os.Chdir(wd)
+			}
 			r := sb.Run(cfg, func() error { return sc.Run(sb) })
 			return sb, r
 		}
@@ -404,6 +442,15 @@ func main() {
 			tid++
 			if mode == "c07" {
 				emit(&base, sc.Name+"/success")
+			} else {
+				rec := runRec{T: tid, Op: sc.Name, Cfg: "nofault", Kind: "none", N: len(base.Events), Outcome: base.Outcome(), Err: errStr(&base)}
+				judge(&sc, targets, &base, &rec)
+				emit(&base, sc.Name+"/nofault")
+				w.Put(rec)
+				runs++
+				if rec.Verdict == "violation" {
+					viol++
+				}
 			}
 			n := len(base.Events)
 			var ks []int
@@ -422,6 +469,11 @@ func main() {
 					ks = append(ks, 1+rng.Intn(n))
 				}
 				sort.Ints(ks)
+			}
+			if sc.Slow && tier != "thorough" {
+				// seconds per run: the publication phase (renames, directory syncs, removals) plus two seeded calls
+				var s2 []int // quick: only the fault-free run is judged (seconds per run)
+				ks = s2
 			}
 			if mode == "c07" {
 				// durability is judged on the fault-free trace and on a seeded sample of faulted ones
